@@ -87,7 +87,7 @@ def _scratch_copy(repo):
     for sub in ("middleware", "docs", os.path.join("firmware", "src")):
         src = os.path.join(repo, sub)
         if os.path.isdir(src):
-            shutil.copytree(src, os.path.join(d, sub), ignore=shutil.ignore_patterns("__pycache__", "*.pyc", "tests"))
+            shutil.copytree(src, os.path.join(d, sub), symlinks=True, ignore=shutil.ignore_patterns("__pycache__", "*.pyc", "tests"))
     return d
 
 
